@@ -4,7 +4,8 @@ CHECK = {
  'rule': 'rapid-generated reachable node states (1-5 validators, 0-25 valid blocks with transactions/assets/events/validator changes incl. generator-key rotations and rotation-only updates/aggregate '
          'commits), a valid successor B built from real node state, and 3-8 mutants per state drawn from a catalogue of ~80 single-rule mutation '
          'operators (header fields, slot/generator/signature, stale signature per field, BFT fields, aggregate-commit tamperings, roots, statically '
-         'invalid transactions, size limit, assets order, execution failures, blocks whose execution result and header disagree about the next validator set, the revoked or never registered generator key of the slot owner). Every applicable mutant is non-trivial; distinct by (operator, mutant ID)',
+         'invalid transactions, size limit, assets order, execution failures, blocks whose execution result and header disagree about the next validator set, the revoked or never registered generator key of the slot owner). Every applicable mutant is non-trivial; distinct by (operator, mutant ID)'
+         " Operator signature-copied-from-an-earlier-block-of-the-generator: the mutant carries a signature this node has verified before (the slot owner's latest earlier block) instead of a signature over its own fields.",
  'level_text': 'Each mutant is offered through Executer.process (gossip path) and through Validate+processValidated (sync path); it must be rejected '
                '(error or silent discard) with tip, full database dump, BFT heights, finalized height byte-identical and no consensus event; afterwards '
                'the untouched valid successor must still be accepted.',
